@@ -1075,6 +1075,12 @@ func (app *App) updateActiveNodes(clusterState, clusterStateDcs map[string]*node
 		}
 	}
 
+	// replicas that are too far behind in download (becomeDataLag: IO is working; the delayed
+	// ones in becomeInactive: IO is stalled) had semi-sync disabled above and waitSlaveCount does
+	// not rely on them, so they must not be published either: the failover quorum is computed from
+	// the size of the published list and has to match the number of acks the master waits for
+	activeNodes = filterOut(filterOut(activeNodes, becomeDataLag), becomeInactive)
+
 	// then update DCS
 	if !app.canShrinkActiveNodes(masterNode, oldActiveNodes, activeNodes) {
 		return nil
